@@ -13,13 +13,14 @@ C13_INV = ["TrashDrains", "CurNotTrashed"]
 C13_PROPS = ["NoAbandon", "NewBorrowsUseCurrent", "PublishedIsCurrent"]
 INV = C12_INV + C13_INV
 PROPS = C12_PROPS + C13_PROPS
-ACTIONS = ["BorrowStart", "BorrowMark", "BorrowTake", "Send", "Respond", "Timeout", "ConnFails", "ReplaceCheck", "ReplaceOpen",
+ACTIONS = ["BorrowStart", "BorrowMark", "BorrowTake", "Send", "Respond", "LateStart", "LateFinish", "Timeout", "ConnFails", "ReplaceCheck", "ReplaceOpen",
            "ReplacePublish", "ReplaceRetire", "ShutdownMark", "ShutdownCloseCur", "ShutdownCloseTrash"]
 WITNESSES = {
     "C12": ["Witness_CapacityRefusal", "Witness_PublishAfterShutdown", "Witness_ShutdownWithTrash",
             "Witness_RetireAfterShutdown", "Witness_FailedOldWhileCurrentHealthy", "Witness_InlineShutdown",
             "Witness_QuiescentAllClosed", "Witness_ShutdownDuringUse", "Witness_MarkAfterReplacement"],
-    "C13": ["Witness_Trashed", "Witness_TrashClosedByRespond", "Witness_TrashClosedByTimeout", "Witness_Repick"],
+    "C13": ["Witness_Trashed", "Witness_TrashClosedByRespond", "Witness_TrashClosedByTimeout", "Witness_Repick",
+            "Witness_RetireDuringLateResponse", "Witness_BorrowDuringLateResponse"],
 }
 
 # constants: capacity MaxId, orphan threshold, requests, connections ever opened, failed opens, socket errors
@@ -286,7 +287,7 @@ def replay_graph(ctx, pid, consts, rep, max_walks=None, label="graph", prefer=No
         covered.update(zip(w[:upto + 1], w[1:upto + 1]))
         acts = _acts(states)
         names = [a["name"] for a in acts[:upto]]
-        if any(n.startswith("Replace") or n.startswith("Shutdown") or n in ("Timeout", "RespondLate", "ConnFails") for n in names):
+        if any(n.startswith("Replace") or n.startswith("Shutdown") or n in ("Timeout", "LateStart", "ConnFails") for n in names):
             ctx.nontrivial(tuple((a["name"], a["r"], a["c"], a["f"]) for a in acts[:upto]))
         if replayed % 400 == 1:
             ctx.sample({"direction": "spec->code", "constants": name(consts), "actions": acts[:25]})
